@@ -13,7 +13,7 @@ Lemma ownp_job_upd H j j' JL s :
   r_base j' = r_base j -> r_link j' = r_link j -> d_bit (r_cur j) <= d_bit (r_cur j') ->
   ownp H (j :: JL) s -> ownp H (j' :: JL) s.
 Proof.
-  intros EB EL LE [A B C D E F G K].
+  intros EB EL LE [A B C D E F G K U3].
   constructor; auto.
   - intros h Hh. destruct (A h Hh) as [[Z (x & [<-|X1] & X2 & X3)]|L]; [left|left|right; auto]; split; auto.
     + exists j'. split; [left; auto|]. rewrite (jm_link _ _ _ EL), EB. auto.
@@ -23,6 +23,9 @@ Proof.
       eapply N.le_trans; eauto.
     + apply C; auto. right; auto.
   - intros u Hu Cu. destruct (D u Hu Cu) as (x & [<-|X1] & X2).
+    + exists j'. split; [left; auto|congruence].
+    + exists x. split; [right; auto|auto].
+  - intros u Hu Qu. destruct (U3 u Hu Qu) as (x & [<-|X1] & X2).
     + exists j'. split; [left; auto|congruence].
     + exists x. split; [right; auto|auto].
 Qed.
@@ -36,7 +39,7 @@ Lemma ownp_drop H j s :
   ownp H (j :: all_jobs s) s ->
   ownp H (all_jobs s) (set_unords (drop_link (r_link j) (x_unords s)) s).
 Proof.
-  intros IV NM SEP ORP [A B C D E F G K].
+  intros IV NM SEP ORP [A B C D E F G K U3].
   set (us' := drop_link (r_link j) (x_unords s)).
   assert (LA : forall b k, la (set_unords us' s) b k <-> la s b k) by (intros; apply la_ext; unfold estage; xs; reflexivity).
   assert (JMold : forall x, jm us' x = true -> jm (x_unords s) x = true).
@@ -61,6 +64,11 @@ Proof.
     destruct (drop_link_stems _ _ _ Hu) as (u0 & H0 & (_ & _ & _ & S4 & _)). rewrite S4. auto.
   - exact G.
   - exact K.
+  - intros u Hu Qu. destruct (drop_link_stems _ _ _ Hu) as (u0 & H0 & (S1 & _ & _ & S4 & _)).
+    destruct (U3 u0 H0 ltac:(congruence)) as (x & [<-|X1] & X2); [|exists x; rewrite S1; auto].
+    exfalso. fold us' in Hu. unfold us' in Hu. rewrite X2 in Hu. refine (drop_link_gone (u_id u0) (x_unords s) _ u Hu S1).
+    intros v Hv Ev. assert (v = u0) by (apply (nodup_id_unique (x_unords s)); auto; apply IV). subst v.
+    pose proof (i_unord _ IV) as UO. rewrite Forall_forall in UO. destruct (UO u0 H0) as (_ & O2 & _). apply O2. congruence.
 Qed.
 
 Lemma ownp_give_unit H JL s : ownp H JL s -> ownp H JL (give_unit s).
@@ -79,7 +87,7 @@ Lemma ownp_upd_keep H JL id f s :
              u_complete (f u) = u_complete u /\ u_legit (f u) = u_legit u) ->
   ownp H JL s -> ownp H JL (set_unords (upd_unord id f (x_unords s)) s).
 Proof.
-  intros HF [A B C D E F G K].
+  intros HF [A B C D E F G K U3].
   assert (LA : forall b k, la (set_unords (upd_unord id f (x_unords s)) s) b k <-> la s b k)
     by (intros; apply la_ext; unfold estage; xs; reflexivity).
   assert (JM : forall x, jm (upd_unord id f (x_unords s)) x = jm (x_unords s) x).
@@ -99,6 +107,7 @@ Proof.
     destruct (UP u Hu) as (u0 & H0 & E1 & E2 & E3 & E4). rewrite E3. auto.
   - exact G.
   - exact K.
+  - intros u Hu Qu. destruct (UP u Hu) as (u0 & H0 & E1 & E2 & E3 & E4). rewrite E1. apply U3; auto. congruence.
 Qed.
 
 Lemma not_jm_incomplete s j id : inv s -> r_link j = Some id ->
@@ -174,7 +183,7 @@ Proof.
     assert (LAe : la st' (fst (r_base j)) 0).
     { left. exists e. split; [subst st'; unfold estage; xs; rewrite run_ejobs_cons; simpl; apply in_or_app; right; left; reflexivity|].
       simpl. split; auto. apply N.le_0_l. }
-    rewrite AJ. destruct OW3 as [A B C D E F G K].
+    rewrite AJ. destruct OW3 as [A B C D E F G K U3].
     constructor.
     + intros h Hh. destruct (A h Hh) as [[Z (x & X1 & X2 & X3)]|L]; [|right; auto].
       right. destruct X1 as [<-|X1].
@@ -196,6 +205,9 @@ Proof.
       replace (x_parser_bs st') with (x_parser_bs st) by (subst st'; xs; auto). exact G.
     + replace (x_parsing_done st') with (x_parsing_done st) by (subst st'; xs; auto).
       replace (x_parser_bs st') with (x_parser_bs st) by (subst st'; xs; auto). exact K.
+    + intros u Hu Qu. assert (Hu' : In u (x_unords sf)) by (subst st'; xs in Hu; exact Hu).
+      destruct (U3 u (USub u Hu') Qu) as (x & [<-|X1] & X2); [|exists x; auto].
+      exfalso. simpl in X2. exact (UDel u Hu' X2).
 Qed.
 
 (* ---- do_retrieve: a speculative job -------------------------------------------------------- *)
@@ -279,11 +291,11 @@ Proof.
                ((u_id u0 <> id /\ u = u0) \/ (u_id u0 = id /\ u = f u0))).
     { intros u Hu. rewrite USN in Hu. unfold upd_unord in Hu. apply in_map_iff in Hu. destruct Hu as (u0 & <- & H0). exists u0. split; auto.
       destruct (u_id u0 =? id) eqn:K; [right; split; auto; apply N.eqb_eq; auto|left; split; auto; apply N.eqb_neq; auto]. }
-    rewrite AJ. destruct OW3 as [A B C D E F G K].
+    rewrite AJ. destruct OW3 as [A B C D E F G K U3].
     constructor.
     + intros h Hh. destruct (A h Hh) as [[Z (x & X1 & X2 & X3)]|L]; [left; split; auto|right; auto].
       destruct X1 as [<-|X1]; [congruence|]. exists x. split; auto. split; auto.
-      rewrite USN. rewrite jm_upd_other; auto. rewrite <- AJ3. apply NL. rewrite <- AJ3. exact X1.
+      rewrite USN. rewrite jm_upd_other; [exact X2|apply NL; rewrite <- AJ3; exact X1|reflexivity].
     + intros o Ho S. apply LAm. apply B; auto.
     + intros x Hx J. apply C; [right; auto|]. rewrite USN in J.
       eapply jm_upd_raise; [| |exact J]; [intro u; split; reflexivity|apply I3].
@@ -299,4 +311,167 @@ Proof.
       replace (x_parser_bs st') with (x_parser_bs st) by (subst st'; unfold add_run; xs; auto). exact G.
     + replace (x_parsing_done st') with (x_parsing_done st) by (subst st'; unfold add_run; xs; auto).
       replace (x_parser_bs st') with (x_parser_bs st) by (subst st'; unfold add_run; xs; auto). exact K.
+    + intros u Hu Qu. destruct (UP u Hu) as (u0 & H0 & [[NE ->]|[EQ ->]]).
+      * destruct (U3 u0 H0 Qu) as (x & [<-|X1] & X2); [congruence|exists x; auto].
+      * exfalso. simpl in Qu. pose proof (i_unord _ I3) as UO. rewrite Forall_forall in UO. destruct (UO u0 H0) as (_ & O2 & _).
+        rewrite (INC3 u0 H0 EQ) in O2. specialize (O2 Qu). discriminate.
+Qed.
+
+Lemma own_of_parts st' s2 :
+  ownp (x_order_q s2) (all_jobs st') st' /\ x_order_q st' = x_order_q s2 /\ x_next st' = x_next s2 -> oshape s2 -> own st'.
+Proof. intros (A & B & C) S. split; [rewrite B; exact A|eapply oshape_view; eauto]. Qed.
+
+Lemma own_retr1 cfg j att rv cur st st' :
+  cfg_safe cfg -> cfg_drops cfg -> inv st -> own st -> retr1 cfg j att rv cur st = Some st' -> own st'.
+Proof.
+  intros (CS & CJ & CR) (CSD & CDD & CAD & CA & CF) I OW H. unfold retr1 in H.
+  destruct (del_run (CRetr j att) st) as [s1|] eqn:D; [|discriminate].
+  assert (F1 : jfacts j s1) by (apply (inv_del_retr _ _ _ _ D I)).
+  destruct (del_run_spec _ _ _ D) as (l1 & l2 & E & ES1).
+  assert (OW1 : ownp (x_order_q s1) (j :: all_jobs s1) s1 /\ oshape s1).
+  { destruct OW as [OP OS]. subst s1. split.
+    - xs. eapply ownp_view; [| |exact OP].
+      + constructor; xs; auto. intro x. unfold estage. xs. rewrite E, !run_ejobs_app, run_ejobs_cons. simpl. auto.
+      + intro x. unfold all_jobs. xs. rewrite E, !run_jobs_app, run_jobs_cons. simpl. rewrite !in_app_iff. simpl. rewrite ?in_app_iff. tauto.
+    - eapply oshape_view; [| |exact OS]; xs; auto. }
+  clear I OW D ES1 E.
+  set (aend := att_end att s1) in *. clearbody aend.
+  match type of H with (if ?c then _ else _) = _ => destruct c eqn:C; [|discriminate] end.
+  assert (F2 : jfacts j (detach att s1)) by (eapply jfacts_view; [apply view_detach|auto]).
+  assert (OW2 : ownp (x_order_q (detach att s1)) (j :: all_jobs (detach att s1)) (detach att s1) /\ oshape (detach att s1)).
+  { destruct OW1 as [OP OS]. split.
+    - replace (x_order_q (detach att s1)) with (x_order_q s1) by (autorewrite with xf; reflexivity).
+      eapply ownp_view; [| |exact OP]; [oview_tac|]. intro x. unfold all_jobs. autorewrite with xf. tauto.
+    - eapply oshape_view; [| |exact OS]; autorewrite with xf; auto. }
+  clear F1 OW1. set (s2 := detach att s1) in *. clearbody s2. clear s1.
+  bool_hyps.
+  assert (Hok : dbs_ok cur = true) by assumption.
+  assert (Hbit : d_bit (r_cur j) <= d_bit cur) by (apply N.leb_le; assumption).
+  assert (Hoff : d_off (r_cur j) <= d_off cur) by (apply N.leb_le; assumption).
+  assert (HnM : rv = MORE -> dbs_norm cur = true).
+  { intro EM; subst rv. match goal with K : (if MORE =? MORE then _ else _) = true |- _ => rewrite N.eqb_refl in K end. bool_hyps. auto. }
+  destruct OW2 as [OP2 OS2].
+  assert (F2' := F2). destruct F2' as (I2 & J2 & L2 & B2 & M2).
+  (* parsing_done *)
+  destruct (x_parsing_done s2) eqn:PD.
+  { inversion H; subst st'. rewrite CDD.
+    assert (NM : jm (x_unords s2) j = false).
+    { destruct (i_done _ I2 PD) as [_ T]. rewrite T in B2. simpl in B2. destruct (jm (x_unords s2) j); auto. exfalso. simpl in B2. clear - B2. lia. }
+    assert (X : ownp (x_order_q s2) (all_jobs s2) (set_unords (drop_link (r_link j) (x_unords s2)) s2)).
+    { apply ownp_drop; auto.
+      - intros id x L Hx. apply (no_link_job id s2 x (L2 id L) Hx).
+      - intros u Hu _ Qu _. exfalso. pose proof (o_noinq _ _ _ OP2 PD) as NI. rewrite Forall_forall in NI. rewrite (NI u Hu) in Qu. discriminate. }
+    apply (own_of_parts _ s2); [|exact OS2].
+    split; [exact (ownp_give_unit _ _ _ X)|split; reflexivity]. }
+  destruct (link_state (r_link j) s2) as [u|] eqn:LS.
+  - destruct (link_state_spec _ _ _ LS) as (id & EL & Hu & Hid). rewrite EL in H. cbn [andb negb orb] in H.
+    assert (UNI : forall u0, In u0 (x_unords s2) -> u_id u0 = id -> u0 = u).
+    { intros u0 Hv0 E0. apply (nodup_id_unique (x_unords s2)); auto; [apply I2|congruence]. }
+    destruct (u_complete u) eqn:UC; cbn [andb negb orb] in H.
+    + destruct (u_legit u) eqn:UL; cbn [andb negb orb] in H.
+      * (* adopted: acts as the master *)
+        apply (own_of_parts _ s2); [|exact OS2].
+        eapply (oretr1_master cfg j (Some id) rv cur s2 st' _ EL CR CA F2); try exact H; auto.
+        eapply jm_of_link_state; eauto.
+      * (* proven not legitimate: aborted *)
+        inversion H; subst st'. rewrite CAD.
+        assert (NM : jm (x_unords s2) j = false).
+        { apply (not_jm_incomplete s2 j id I2 EL). intros u0 Hv0 E0. right. rewrite (UNI u0 Hv0 E0). exact UL. }
+        assert (X : ownp (x_order_q s2) (all_jobs s2) (set_unords (drop_link (r_link j) (x_unords s2)) s2)).
+        { apply ownp_drop; auto.
+          - intros id0 x L Hx. apply (no_link_job id0 s2 x (L2 id0 L) Hx).
+          - intros u0 Hv0 LJ _ C0. exfalso. rewrite EL in LJ. inversion LJ as [X]. rewrite (UNI u0 Hv0 (eq_sym X)) in C0. congruence. }
+        rewrite EL in X. subst id.
+        apply (own_of_parts _ s2); [|exact OS2].
+        split; [exact (ownp_give_unit _ _ _ X)|split; reflexivity].
+    + (* speculative *)
+      apply (own_of_parts _ s2); [|exact OS2].
+      eapply (oretr1_spec cfg j id rv cur s2 st' _ CR CSD F2 EL PD); try exact H; auto.
+      intros u0 Hv0 E0. rewrite (UNI u0 Hv0 E0). exact UC.
+  - assert (EL : (exists id, r_link j = Some id) \/ r_link j = None) by (destruct (r_link j); eauto).
+    destruct EL as [[id EL]|EL]; rewrite EL in H; cbn [andb negb orb] in H.
+    + (* dangling link: treated as speculative, the update is void *)
+      apply (own_of_parts _ s2); [|exact OS2].
+      eapply (oretr1_spec cfg j id rv cur s2 st' _ CR CSD F2 EL PD); try exact H; auto.
+      intros u0 Hv0 E0. exfalso. unfold link_state in LS. rewrite EL in LS. eapply get_unord_none; eauto.
+    + (* created by the parser: the master *)
+      apply (own_of_parts _ s2); [|exact OS2].
+      eapply (oretr1_master cfg j None rv cur s2 st' _ EL CR CA F2); try exact H; auto.
+      unfold jm. rewrite EL. reflexivity.
+Qed.
+
+(* ---- do_scan -------------------------------------------------------------------------------- *)
+Lemma own_scan1 cfg s att found s' more st st' :
+  inv st -> own st -> scan1 cfg s att found s' more st = Some st' -> own st'.
+Proof.
+  intros I OW H. unfold scan1 in H.
+  destruct (del_run (CScan s att) st) as [s1|] eqn:D; [|discriminate].
+  assert (I1 : inv s1) by (eapply inv_view; [eapply view_del_run; eauto|auto]).
+  destruct (del_run_spec _ _ _ D) as (l1 & l2 & E & ES1).
+  assert (OW1 : own s1).
+  { eapply own_view; [| | |exact OW]; subst s1.
+    - constructor; xs; auto. intro x. unfold estage. xs. rewrite E, !run_ejobs_app, run_ejobs_cons. simpl. auto.
+    - xs. auto.
+    - intro x. unfold all_jobs. xs. rewrite E, !run_jobs_app, run_jobs_cons. simpl. tauto. }
+  clear I OW D ES1 E. set (aend := att_end att s1) in *. clearbody aend.
+  assert (I2 : inv (detach att s1)) by (eapply inv_view; [apply view_detach|auto]).
+  assert (OW2 : own (detach att s1)) by (eapply own_view; [| | |exact OW1]; oview_tac).
+  set (s2 := detach att s1) in *. clearbody s2. clear I1 OW1 s1.
+  destruct (negb found || x_parsing_done s2) eqn:F.
+  { inversion H; subst. eapply own_view; [| | |exact OW2]; oview_tac. }
+  match type of H with (if ?c then _ else _) = _ => destruct c; [|discriminate] end.
+  apply orb_false_iff in F. destruct F as [_ PD].
+  set (s3 := if pos_le (d_pos s') (d_pos (x_parser_bs s2)) || (c_scan_job_checks_head cfg && (d_off s' <? x_head_offs s2)) then give_unit s2
+             else if c_scan_checks_unord_cap cfg && unord_full s2 then give_unit s2
+             else set_retr_q (mkrjob (d_pos s') s' (Some (x_next_uid s2)) :: x_retr_q s2)
+                   (set_next_uid (x_next_uid s2 + 1)
+                      (set_unords (x_unords s2 ++ [mkunord (x_next_uid s2) (d_pos s') s' false false true]) s2))) in *.
+  assert (O3 : own s3).
+  { subst s3. destruct (pos_le (d_pos s') (d_pos (x_parser_bs s2)) || (c_scan_job_checks_head cfg && (d_off s' <? x_head_offs s2)));
+      [|destruct (c_scan_checks_unord_cap cfg && unord_full s2)].
+    - eapply own_view; [| | |exact OW2]; oview_tac.
+    - eapply own_view; [| | |exact OW2]; oview_tac.
+    - destruct OW2 as [OP OS]. destruct I2 as [Ic Ip Ir Is Iu If Ij Il Ie Im Id Ib Iq].
+      set (un := mkunord (x_next_uid s2) (d_pos s') s' false false true).
+      set (jn := mkrjob (d_pos s') s' (Some (x_next_uid s2))).
+      match goal with |- own ?x => set (st3 := x) end.
+      assert (LA : forall b k, la st3 b k <-> la s2 b k) by (intros; apply la_ext; subst st3; unfold estage; xs; reflexivity).
+      assert (AJ : forall x, In x (all_jobs st3) <-> x = jn \/ In x (all_jobs s2)).
+      { intro x. subst st3. unfold all_jobs. xs. simpl. split; intros [X|X]; auto. }
+      assert (US : x_unords st3 = x_unords s2 ++ [un]) by (subst st3; xs; reflexivity).
+      assert (NJ : jm (x_unords st3) jn = false).
+      { rewrite US. unfold jm. simpl. rewrite existsb_app. simpl. rewrite andb_false_r. simpl. rewrite orb_false_r.
+        apply not_true_iff_false. intro X. apply existsb_exists in X. destruct X as (u & Hu & X). bool_hyps.
+        rewrite Forall_forall in If. apply If in Hu.
+        match goal with K : (u_id u =? x_next_uid s2) = true |- _ => apply N.eqb_eq in K; rewrite K in Hu end. exact (N.lt_irrefl _ Hu). }
+      assert (JO : forall x, jm (x_unords st3) x = jm (x_unords s2) x) by (intro x; rewrite US; apply jm_app_new; reflexivity).
+      split.
+      + replace (x_order_q st3) with (x_order_q s2) by (subst st3; xs; reflexivity).
+        destruct OP as [A B C D E F G K U3].
+        constructor.
+        * intros h Hh. destruct (A h Hh) as [[Z (x & X1 & X2 & X3)]|L]; [left; split; auto|right; apply LA; auto].
+          exists x. split; [apply AJ; auto|]. rewrite JO. auto.
+        * intros o Ho S. apply LA. apply B; auto.
+        * intros x Hx J. apply AJ in Hx. destruct Hx as [->|Hx]; [congruence|].
+          replace (x_next st3) with (x_next s2) by (subst st3; xs; reflexivity).
+          replace (x_parser_bs st3) with (x_parser_bs s2) by (subst st3; xs; reflexivity).
+          apply C; auto. rewrite <- JO. exact J.
+        * intros u Hu Cu. rewrite US in Hu. apply in_app_or in Hu. destruct Hu as [Hu|[<-|[]]].
+          -- destruct (D u Hu Cu) as (x & X1 & X2). exists x. split; [apply AJ; auto|auto].
+          -- exists jn. split; [apply AJ; auto|reflexivity].
+        * intros u Hu Qu Cu. rewrite US in Hu. apply in_app_or in Hu. destruct Hu as [Hu|[<-|[]]]; [|simpl in Cu; discriminate].
+          replace (x_parser_bs st3) with (x_parser_bs s2) by (subst st3; xs; reflexivity).
+          destruct (E u Hu Qu Cu) as [L|L]; [left; apply LA; auto|right; auto].
+        * replace (x_parsing_done st3) with (x_parsing_done s2) by (subst st3; xs; reflexivity). rewrite PD. discriminate.
+        * replace (x_parsing_done st3) with (x_parsing_done s2) by (subst st3; xs; reflexivity).
+          replace (x_next st3) with (x_next s2) by (subst st3; xs; reflexivity).
+          replace (x_parser_bs st3) with (x_parser_bs s2) by (subst st3; xs; reflexivity). exact G.
+        * replace (x_parsing_done st3) with (x_parsing_done s2) by (subst st3; xs; reflexivity).
+          replace (x_parser_bs st3) with (x_parser_bs s2) by (subst st3; xs; reflexivity). exact K.
+        * intros u Hu Qu. rewrite US in Hu. apply in_app_or in Hu. destruct Hu as [Hu|[<-|[]]]; [|simpl in Qu; discriminate].
+          destruct (U3 u Hu Qu) as (x & X1 & X2). exists x. split; [apply AJ; auto|auto].
+      + eapply oshape_view; [| |exact OS]; subst st3; xs; auto. }
+  clearbody s3.
+  match type of H with (if ?c then _ else _) = _ => destruct c end; inversion H; subst; auto.
+  eapply own_view; [| | |exact O3]; oview_tac.
 Qed.
